@@ -9,7 +9,8 @@ invariant can only be established at construction or by `push`; every non-derive
 progression lo + i*step whose step is provably non-negative (normalised min/max pair of the same two bounds) with the n-1 divisor
 guarded; `push` appends only after the finite and order checks and cannot fail after mutating; Series1.x has the validated type
 and every Series1 producer obtains x from try_from / a clone of an existing domain / a parameter of that type, with abscissae
-and ordinates built in lock-step (same source length, pushes in the same blocks, both reversed or neither)."""
+and ordinates built in lock-step (same source length, pushes in the same blocks, both reversed or neither).
+Series1::between appends the upper bound under `last kept abscissa < x1` and no further condition."""
 NOT_DECIDED = "y.len()==x.len() for the public unchecked Series1::new / public fields; values of interpolation, crossings, areas and resampling (only their formulas, guards and order are decided), area additivity; serde Deserialize derives construct without validation (derive expansions are out of scope)"
 ASSUMPTIONS = ["iterator adapters map/rev/cloned/collect preserve length; zip yields the common length"]
 
